@@ -24,7 +24,7 @@ def check(chk):
     chk.rule('C12.shutdown_test', 'the is_shutdown test dominates every hand-out of a connection')
     chk.rule('C12.noorphan_dec', 'return_connection(stream_was_orphaned=True) does not decrement in_flight')
     chk.rule('C12.drain', 'shutdown closes every connection the pool tracks: _connection / _connections / _trash, draining the saved copy after a swap')
-    chk.rule('C12.paired', 'Connection.set_keyspace_async hands the connection to its callback (which returns it to the pool, decrementing in_flight) only after it has incremented in_flight')
+    chk.rule('C12.paired', 'a return_connection that decrements in_flight follows an increment on the same path: Connection.set_keyspace_async calls its callback (which returns the connection to the pool) only after in_flight += 1; the heartbeat scan returns a connection only after sending a heartbeat on it')
     chk.rule('C12.identity', 'HostConnection.return_connection forgets / replaces the current connection only when the returned connection is the current one')
     chk.rule('C12.trash', 'a connection is removed from _trash only on a path that closes it')
     chk.rule('C12.created', 'a connection obtained from connection_factory is published or closed on every path, including exceptional ones')
@@ -227,6 +227,24 @@ def check(chk):
               'the callback runs (line %s) on a path that has not incremented in_flight; both pools\' callbacks call return_connection, so in_flight goes negative and the '
               'pool later hands out more streams than the connection has' % sorted(n.line() for n in early))
 
+    # ---- the heartbeat thread: a plain return_connection (which decrements) needs the heartbeat's own increment before it
+    hbr = chk.repo.mod(CONN).func('ConnectionHeartbeat.run')
+    ghb = CFG(hbr)
+    scans = [n for n in ghb.stmt_nodes() if n.kind == 'for_iter' and src(n.ast.iter) == 'connections']
+    if len(scans) != 1:
+        raise AnalysisError('ConnectionHeartbeat.run: scan loop over the owner\'s connections not found')
+    in_scan = set(id(x) for x in ast.walk(scans[0].ast))
+    sends = [n for n in ghb.stmt_nodes() if n.kind == 'stmt' and any(isinstance(c, ast.Call) and src(c.func) == 'HeartbeatFuture' for c in ast.walk(n.ast))]
+    plain = [n for n in ghb.stmt_nodes() if n.kind == 'stmt' and id(n.ast) in in_scan and any(
+        isinstance(c, ast.Call) and isinstance(c.func, ast.Attribute) and c.func.attr == 'return_connection' and
+        not any(k.arg == 'stream_was_orphaned' and isinstance(k.value, ast.Constant) and k.value.value is True for k in c.keywords) for c in ast.walk(n.ast))]
+    if not sends:
+        raise AnalysisError('ConnectionHeartbeat.run: HeartbeatFuture creation not found')
+    for n in plain:
+        paired = any(ghb.dominates(s_, n) and id(s_.ast) in in_scan for s_ in sends)
+        chk.judge(paired, 'C12.paired', n.ast, 'heartbeat scan: %s follows the heartbeat\'s own in_flight += 1' % src(n.ast).strip()[:60],
+                  'the scan hands a connection it found defunct / closed to owner.return_connection without having sent a heartbeat on it: the pool decrements in_flight for a '
+                  'stream that was never taken (an idle dead connection goes to in_flight == -1)')
     # ---- a dead connection that was already replaced (it sits in the trash) must not make the pool drop its healthy successor
     rc_ = pool.func('HostConnection.return_connection')
     grc = CFG(rc_)
